@@ -681,7 +681,8 @@ func New() *FunctionGenerator {
 	equal := Equal(f)
 	less := Less(f)
 
-	fg.AddOpImpl("=", true, equal)
+	// = is commutative, but not associative: (a=1)=2 must not be regrouped to a=(1=2)
+	fg.AddOpImpl("=", false, equal)
 	fg.AddOp("!=", false, func(st funcGen.Stack[Value], a Value, b Value) (Value, error) {
 		eq, err := equal.Calc(st, a, b)
 		if err != nil {
